@@ -134,7 +134,15 @@ def run(sc: Dict[str, Any]) -> Dict[str, Any]:
         pit.train()
         pit.train_net_and_nas()
         pit.discrete_cost = bool(cfg.get("discrete", False))
-        params = list(pit.nas_parameters())
+        # un-padded Conv1d layers: pruning taps would change their output length (documented as unsupported), so a
+        # user searches their channels only - switch their rf / dilation search off, as the per-layer switches allow
+        for i_, nd_ in enumerate(arch["nodes"], start=1):
+            if nd_["op"] == "conv" and nd_.get("valid") and arch["dim"] == 1 and not nd_["excl"] and not nd_["reuse"]:
+                ly_ = pitdrv.layer(pit, i_)
+                if hasattr(ly_, "train_rf"):
+                    ly_.train_rf = False
+                    ly_.train_dilation = False
+        params = [p_ for p_ in pit.nas_parameters() if p_.requires_grad]
         if not params:
             pit.eval()
             return
@@ -213,6 +221,13 @@ def run(sc: Dict[str, Any]) -> Dict[str, Any]:
                 pit.discrete_cost = False
             elif op == "discrete_cost":
                 pit.discrete_cost = True
+            elif op == "respec":              # re-assign the same cost specification (rebuilds the cost-function map)
+                pit.cost_specification = pit.cost_specification
+            elif op == "respec_switch":       # switch to another specification and back
+                cur = pit.cost_specification
+                pit.cost_specification = specs["ops"] if cur is not specs["ops"] else specs["params"]
+                float(pit.cost)
+                pit.cost_specification = cur
             elif op == "train_mode_roundtrip":
                 pit.train()
                 pit.eval()
